@@ -8,6 +8,7 @@ itself refused the text: whenever it did, the error at the API boundary must be 
 from __future__ import annotations
 
 import os
+import re
 import random
 import shutil
 import subprocess
@@ -103,6 +104,21 @@ def pipeline(text: str, path: str) -> tuple[str, BaseException | None, bool]:
 		from vf.session import Session
 		src_dir = st['src_dir']
 		s = Session(cache_dir=os.path.join(st['scratch'], 'cache-disk'), extra_definitions={'rogw.tranp.app.env.SourceEnvPath': lambda: SourceEnvPath.instantiate([src_dir])})
+	elif path == 'disk-same':
+		# one module file edited again and again (the same path, another text, a later modification time), each version met by a new
+		# application over the same cache directory inside this one process: what an earlier report read from the file must not
+		# serve the next report
+		st['n'] += 1
+		name = 'vf07_same'
+		file = os.path.join(st['src_dir'], name + '.py')
+		t0 = 1_700_000_000.0 + 10 * st['n']
+		with open(file, 'w', encoding='utf-8', newline='') as f:
+			f.write(text + '\n')
+		os.utime(file, (t0, t0))
+		from rogw.tranp.app.env import SourceEnvPath
+		from vf.session import Session
+		src_dir = st['src_dir']
+		s = Session(cache_dir=os.path.join(st['scratch'], 'cache-disk'), extra_definitions={'rogw.tranp.app.env.SourceEnvPath': lambda: SourceEnvPath.instantiate([src_dir])})
 	else:
 		s = st['disk']
 		st['n'] += 1
@@ -174,11 +190,21 @@ def judge(acc: Acc, case: dict) -> str | None:
 	# the error rendering itself never fails
 	cwd = os.getcwd()
 	try:
-		if path in ('disk', 'disk-overwrite'):
+		if path in ('disk', 'disk-overwrite', 'disk-same'):
 			# the renderer quotes the offending line from '<module path>.py' relative to the working directory (as in a real command-line run)
 			os.chdir(state()['src_dir'])
 		rendered = str(ErrorRender(exc))
 		acc.see('error_render', 'ok' + (' (with source quotation)' if 'via Node:' in rendered else ''))
+		if path == 'disk-same' and 'via Node:' in rendered:
+			# the quoted line is the line of the file as it stands now (the renderer reads it in binary, cuts at LF, shows tabs as blanks)
+			m = re.search(r'via Node:\n  (.*):(\d+)\n    >>> ([^\n]*)', rendered)
+			if m and m.group(1).endswith('vf07_same.py'):
+				lines = (text + '\n').encode('utf-8').split(b'\n')
+				no = int(m.group(2)) - 1
+				current = lines[no].decode('utf-8').replace('\t', ' ') if no < len(lines) else None
+				acc.see('error_render', 'quotation of a re-edited file compared')
+				if current != m.group(3):
+					acc.violation('error-render-stale-quotation', f'report for the re-edited file {m.group(1)}:{m.group(2)} quotes {m.group(3)!r}, the file holds {current!r} there', case)
 		if name not in rendered:
 			acc.violation('error-render-incomplete', f'rendering of {name} does not name the error class: {rendered[-300:]!r}', case)
 	except BaseException as e2:  # noqa
@@ -201,6 +227,11 @@ def interactive_case(acc: Acc, bad: str, good: str, case: dict) -> None:
 		return
 	out = p.stdout
 	acc.see('interactive', 'ran')
+	if 'JSONDecodeError' in out + p.stderr and 'syntax/lark/parser.py' in out + p.stderr:
+		# the real process keeps its caches in <cwd>/.cache, which every interactive process of every shard shares: a file read while
+		# another process is writing it is empty. Damaged cache files are C05's business; here it is not a verdict on the loop.
+		acc.inconc('interactive process read a cache file of the shared <repo>/.cache while another process was writing it', bad[:100])
+		return
 	acc.case(sig_of(('it', bad, good)), {'path': 'interactive-process', 'bad': bad[:120]}, True)
 	if 'Quit' not in out:
 		acc.violation('interactive/no-quit', f'exit {p.returncode}; tail: {out[-400:]!r} {p.stderr[-300:]!r}', case)
@@ -284,6 +315,9 @@ def shard(ctx: Ctx, acc: Acc) -> None:
 					judge(acc, {'text': text, 'path': 'memory', 'kind': kind + '+again'})
 				if i % 4 == 0 or kind.startswith('ill-typed'):
 					judge(acc, {'text': text, 'path': 'disk', 'kind': kind})
+				if kind.startswith('ill-typed'):
+					acc.see('input_kind', 're-edited-file')
+					judge(acc, {'text': text, 'path': 'disk-same', 'kind': kind})
 				if kind.startswith('ill-typed') and i % 2 == 0:
 					# the same module file with other line endings: CRLF, classic-Mac CR, one stray CR in the middle
 					nl = text.count('\n')
